@@ -205,6 +205,13 @@ impl<P: PageTableFrameMapping> Mapper<Size1GiB> for MappedPageTable<'_, P> {
         if p3[page.p3_index()].is_unused() {
             return Err(FlagUpdateError::PageNotMapped);
         }
+        // the entry must be a 1GiB mapping, not a pointer to a level 2 table
+        if !p3[page.p3_index()]
+            .flags()
+            .contains(PageTableFlags::HUGE_PAGE)
+        {
+            return Err(FlagUpdateError::ParentEntryHugePage);
+        }
         p3[page.p3_index()].set_flags(flags | PageTableFlags::HUGE_PAGE);
 
         Ok(MapperFlush::new(page))
@@ -251,6 +258,10 @@ impl<P: PageTableFrameMapping> Mapper<Size1GiB> for MappedPageTable<'_, P> {
 
         if p3_entry.is_unused() {
             return Err(TranslateError::PageNotMapped);
+        }
+        // the entry must be a 1GiB mapping, not a pointer to a level 2 table
+        if !p3_entry.flags().contains(PageTableFlags::HUGE_PAGE) {
+            return Err(TranslateError::ParentEntryHugePage);
         }
 
         PhysFrame::from_start_address(p3_entry.addr())
@@ -319,6 +330,13 @@ impl<P: PageTableFrameMapping> Mapper<Size2MiB> for MappedPageTable<'_, P> {
         if p2[page.p2_index()].is_unused() {
             return Err(FlagUpdateError::PageNotMapped);
         }
+        // the entry must be a 2MiB mapping, not a pointer to a level 1 table
+        if !p2[page.p2_index()]
+            .flags()
+            .contains(PageTableFlags::HUGE_PAGE)
+        {
+            return Err(FlagUpdateError::ParentEntryHugePage);
+        }
 
         p2[page.p2_index()].set_flags(flags | PageTableFlags::HUGE_PAGE);
 
@@ -379,6 +397,10 @@ impl<P: PageTableFrameMapping> Mapper<Size2MiB> for MappedPageTable<'_, P> {
 
         if p2_entry.is_unused() {
             return Err(TranslateError::PageNotMapped);
+        }
+        // the entry must be a 2MiB mapping, not a pointer to a level 1 table
+        if !p2_entry.flags().contains(PageTableFlags::HUGE_PAGE) {
+            return Err(TranslateError::ParentEntryHugePage);
         }
 
         PhysFrame::from_start_address(p2_entry.addr())
